@@ -5,6 +5,7 @@ import (
 	"go/parser"
 	"go/token"
 	"go/types"
+	"golang.org/x/tools/go/ast/astutil"
 	"regexp"
 	"sort"
 	"strings"
@@ -29,11 +30,18 @@ func parseGuard(s string) guardExpr {
 	if err != nil {
 		return guardExpr{}
 	}
-	return guardExpr{ok: true, expr: e}
+	return guardExpr{ok: true, expr: canonParens(e)}
 }
 
 func atomKey(e ast.Expr) (string, bool) {
 	// returns canonical atom and whether it is negated
+	for {
+		p, ok := e.(*ast.ParenExpr)
+		if !ok {
+			break
+		}
+		e = p.X
+	}
 	// == and != are symmetric: operands in lexical order
 	if be, ok := e.(*ast.BinaryExpr); ok && (be.Op == token.EQL || be.Op == token.NEQ) {
 		x, y := be.X, be.Y
@@ -177,4 +185,45 @@ func valString(v map[string]bool) string {
 		return "always"
 	}
 	return strings.Join(parts, " ∧ ")
+}
+
+// canonParens rewrites e so that parentheses carry no information: every ParenExpr is dropped,
+// and an operand of a binary or unary expression that is itself a binary expression is wrapped.
+func canonParens(e ast.Expr) ast.Expr {
+	out := astutil.Apply(e, nil, func(cur *astutil.Cursor) bool {
+		if p, ok := cur.Node().(*ast.ParenExpr); ok {
+			cur.Replace(p.X)
+		}
+		return true
+	}).(ast.Expr)
+	wrap := func(x ast.Expr) ast.Expr {
+		if _, ok := x.(*ast.BinaryExpr); ok {
+			return &ast.ParenExpr{X: x}
+		}
+		return x
+	}
+	return astutil.Apply(out, nil, func(cur *astutil.Cursor) bool {
+		switch n := cur.Node().(type) {
+		case *ast.BinaryExpr:
+			n.X, n.Y = wrap(n.X), wrap(n.Y)
+		case *ast.UnaryExpr:
+			n.X = wrap(n.X)
+		case *ast.SelectorExpr:
+			n.X = wrap(n.X)
+		case *ast.IndexExpr:
+			n.X = wrap(n.X)
+		case *ast.StarExpr:
+			n.X = wrap(n.X)
+		}
+		return true
+	}).(ast.Expr)
+}
+
+// canonText: the expression text with canonical parentheses (unchanged if it does not parse).
+func canonText(s string) string {
+	e, err := parser.ParseExpr(s)
+	if err != nil {
+		return s
+	}
+	return types.ExprString(canonParens(e))
 }
